@@ -12,6 +12,7 @@ From Coq Require Import ZArith List Lia Bool Sorted SetoidList Permutation.
 From Gods Require Import Common.Cmp Common.ListAux Spec.SeqSpec Spec.MapSpec Model.Ops Model.Lists Model.Machine.
 From Gods Require Model.RBTree Model.AVLTree Model.BTree.
 From Gods Require Proofs.RBInv Proofs.RBMap Proofs.AVLInv Proofs.AVLMap.
+From Gods Require Proofs.BTreeInd Proofs.BTreeMap Proofs.BTreeInv.
 From Gods Require Import Proofs.MapSpecProofs.
 Import ListNotations.
 Local Open Scope Z_scope.
@@ -56,6 +57,9 @@ Definition map_kind (k : kind) : bool :=
 Definition valid (c : config) : Prop :=
   map_kind (ckind c) = true /\ (ckind c = BTree -> 3 <= corder c).
 
+Lemma kind_eq_dec_lhm : forall c, {ckind c = LinkedHashMap} + {ckind c <> LinkedHashMap}.
+Proof. intros c. destruct (ckind c); (left; reflexivity) || (right; discriminate). Qed.
+
 Lemma kc_SWO : forall c, SWO (kc c).
 Proof. intros c. apply cmp_of_SWO. Qed.
 
@@ -70,6 +74,39 @@ Proof.
   intros cmp es. induction es as [|e es IH]; intros l; [reflexivity|].
   cbn [puts map fold_left mstep]. apply IH.
 Qed.
+
+(* ---------- the ordered kinds and the navigation results that [observe] prints (C02) ---------- *)
+Definition ordered_kind (k : kind) : bool :=
+  match k with TreeMap | RedBlackTree | AVLTree | BTree => true | _ => false end.
+
+(* the navigation results that [observe] prints *)
+Definition left_of (s : state) : option (Z * Z) :=
+  match s with
+  | StRB t _ => RB.leftmost t
+  | StAVL t _ => AVL.leftmost t
+  | StBT r _ => match r with Some n => BT.left_entry n | None => None end
+  | _ => None
+  end.
+Definition right_of (s : state) : option (Z * Z) :=
+  match s with
+  | StRB t _ => RB.rightmost t
+  | StAVL t _ => AVL.rightmost t
+  | StBT r _ => match r with Some n => BT.right_entry n | None => None end
+  | _ => None
+  end.
+Definition floor_of (c : config) (s : state) (p : Z) : option (Z * Z) :=
+  match s with
+  | StRB t _ => RB.floor (kc c) p t
+  | StAVL t _ => AVL.floor (kc c) p t
+  | _ => None
+  end.
+Definition ceiling_of (c : config) (s : state) (p : Z) : option (Z * Z) :=
+  match s with
+  | StRB t _ => RB.ceiling (kc c) p t
+  | StAVL t _ => AVL.ceiling (kc c) p t
+  | _ => None
+  end.
+
 
 (* ================================================================================================ *)
 (* 2. per-structure simulation lemmas                                                               *)
@@ -357,3 +394,1105 @@ Proof.
       intros Hin. apply Hk in Hin. apply key_in_iff_mem in Hin. congruence.
     + intros x. rewrite keys_hput by exact Hs. rewrite in_app_iff, Hk. cbn [In]. intuition.
 Qed.
+
+Lemma lmap_remove_sim : forall k s, lmI s ->
+  lmI (lmap_remove k s) /\ fst (lmap_remove k s) = del_list Z.compare k (fst s).
+Proof.
+  intros k [tbl ord] (Hs & Hnd & Hk). cbn [fst snd] in *. unfold lmap_remove.
+  destruct (hmem k tbl) eqn:M; cbn [fst snd]; rewrite hmem_mem in M.
+  - split; [|reflexivity]. unfold lmI. cbn [fst snd].
+    assert (Hin : In k ord) by (apply Hk, key_in_iff_mem; exact M).
+    destruct (dll_remove_index k ord Hin) as (l1 & l2 & E & Hni & ->). subst ord.
+    split; [apply (del_list_sorted Z.compare); exact Hs|].
+    split; [eapply NoDup_remove_1; exact Hnd|].
+    intros x. rewrite keys_hdel by exact Hs. rewrite <- Hk.
+    apply NoDup_remove_2 in Hnd. rewrite !in_app_iff in *. cbn [In]. split.
+    + intros H. split; [intros ->; tauto | tauto].
+    + intros [Hne [H|[H|H]]]; [tauto|congruence|tauto].
+  - split; [split; [exact Hs|split; assumption]|].
+    symmetry. apply (del_absent Z.compare); assumption.
+Qed.
+
+Lemma lmap_puts_sim : forall es s, lmI s ->
+  lmI (fold_left (fun acc e => lmap_put (fst e) (snd e) acc) es s) /\
+  fst (fold_left (fun acc e => lmap_put (fst e) (snd e) acc) es s) =
+  fold_left (mstep Z.compare) (puts es) (fst s).
+Proof.
+  induction es as [|e es IH]; intros s Hs; [split; [exact Hs|reflexivity]|].
+  cbn [fold_left puts map mstep].
+  destruct (lmap_put_sim (fst e) (snd e) s Hs) as [H1 E1].
+  destruct (IH _ H1) as [H2 E2]. split; [exact H2|]. rewrite E2, E1. reflexivity.
+Qed.
+
+Lemma hputs_sim : forall es l, ksorted Z.compare l ->
+  ksorted Z.compare (fold_left (fun acc e => hput (fst e) (snd e) acc) es l) /\
+  fold_left (fun acc e => hput (fst e) (snd e) acc) es l = fold_left (mstep Z.compare) (puts es) l.
+Proof.
+  induction es as [|e es IH]; intros l Hs; [split; [exact Hs|reflexivity]|].
+  cbn [fold_left puts map mstep]. apply IH. apply (ins_list_sorted Z.compare Zcompare_SWO). exact Hs.
+Qed.
+
+(* entries of a LinkedHashMap: each key of the ordering list with its table value *)
+Lemma lmap_value_find : forall tbl k,
+  lmap_value tbl k = match find_list Z.compare k tbl with Some e => snd e | None => 0 end.
+Proof.
+  intros tbl k. unfold lmap_value. rewrite hget_find.
+  destruct (find_list Z.compare k tbl); reflexivity.
+Qed.
+
+Lemma lmap_entries_perm : forall tbl ord, lmI (tbl, ord) -> Permutation (lmap_entries tbl ord) tbl.
+Proof.
+  intros tbl ord (Hs & Hnd & Hk). cbn [fst snd] in *.
+  assert (Hp : Permutation ord (map fst tbl)).
+  { apply NoDup_Permutation; [exact Hnd | apply ksortedZ_keys_nodup; exact Hs | exact Hk]. }
+  unfold lmap_entries. rewrite Hp. rewrite map_map.
+  assert (E : map (fun x : Z * Z => (fst x, lmap_value tbl (fst x))) tbl = tbl).
+  { transitivity (map (fun x : Z * Z => x) tbl); [|apply map_id]. apply map_ext_in. intros e He.
+    rewrite lmap_value_find.
+    rewrite (find_list_In Z.compare Zcompare_SWO (fst e) tbl e Hs He (Z.compare_refl _)).
+    destruct e; reflexivity. }
+  rewrite E. apply Permutation_refl.
+Qed.
+
+(* ================================================================================================ *)
+(* 3. the machine                                                                                   *)
+(* ================================================================================================ *)
+Module Generic.
+Section Machine.
+
+(* ---------- the B-tree interface (see the instantiation at the end of the file) ---------- *)
+Variable btI : nat -> cmpf -> option BT.node -> Prop.
+Hypothesis btI_empty : forall m cmp, btI m cmp None.
+Hypothesis bt_put_total : forall m cmp, (3 <= m)%nat -> SWO cmp -> forall k v r, btI m cmp r ->
+  exists r' b, BT.put m cmp (bt_fuel r) (k, v) r = Some (r', b) /\ btI m cmp r' /\
+               bt_inorder r' = ins_list cmp k v (bt_inorder r) /\
+               b = negb (mem_list cmp k (bt_inorder r)).
+Hypothesis bt_remove_total : forall m cmp, (3 <= m)%nat -> SWO cmp -> forall k r, btI m cmp r ->
+  exists r' b, BT.remove m cmp (bt_fuel r) k r = Some (r', b) /\ btI m cmp r' /\
+               bt_inorder r' = del_list cmp k (bt_inorder r) /\
+               b = mem_list cmp k (bt_inorder r).
+Hypothesis bt_get_spec : forall m cmp, (3 <= m)%nat -> SWO cmp -> forall k r, btI m cmp r ->
+  bt_get cmp k r = find_list cmp k (bt_inorder r).
+Hypothesis bt_sorted : forall m cmp, (3 <= m)%nat -> SWO cmp -> forall r, btI m cmp r ->
+  ksorted cmp (bt_inorder r).
+Hypothesis bt_left_right : forall m cmp, (3 <= m)%nat -> SWO cmp -> forall n, btI m cmp (Some n) ->
+  BT.left_entry n = hd_error (BT.inorder n) /\ BT.right_entry n = last_opt (BT.inorder n).
+Hypothesis bt_root_nonempty : forall m cmp, (3 <= m)%nat -> SWO cmp -> forall n, btI m cmp (Some n) ->
+  BT.entries n <> [].
+
+Section BTK.
+Variable m : nat.
+Variable cmp : cmpf.
+Hypothesis Hm : (3 <= m)%nat.
+Hypothesis Hswo : SWO cmp.
+
+Definition btS (r : option BT.node) (n : Z) : Prop :=
+  btI m cmp r /\ n = Z.of_nat (length (bt_inorder r)).
+
+Lemma bt_put_sim : forall k v r n, btS r n ->
+  exists r' n', bt_put m cmp k v r n = Some (r', n') /\ btS r' n' /\
+                bt_inorder r' = ins_list cmp k v (bt_inorder r).
+Proof.
+  intros k v r n (HI & Hn).
+  destruct (bt_put_total m cmp Hm Hswo k v r HI) as (r' & b & Hput & HI' & Hin & Hb).
+  unfold bt_put. rewrite Hput. do 2 eexists. split; [reflexivity|].
+  split; [|exact Hin]. split; [exact HI'|].
+  rewrite Hin, (len_ins cmp Hswo) by (eapply bt_sorted; eassumption). rewrite <- Hb, Hn. reflexivity.
+Qed.
+
+Lemma bt_remove_sim : forall k r n, btS r n ->
+  exists r' n', bt_remove m cmp k r n = Some (r', n') /\ btS r' n' /\
+                bt_inorder r' = del_list cmp k (bt_inorder r).
+Proof.
+  intros k r n (HI & Hn).
+  destruct (bt_remove_total m cmp Hm Hswo k r HI) as (r' & b & Hrm & HI' & Hin & Hb).
+  unfold bt_remove. rewrite Hrm. do 2 eexists. split; [reflexivity|].
+  split; [|exact Hin]. split; [exact HI'|].
+  rewrite Hin, (len_del cmp Hswo) by (eapply bt_sorted; eassumption). rewrite <- Hb, Hn. reflexivity.
+Qed.
+
+Lemma bt_puts_sim : forall es r n, btS r n ->
+  exists r' n', bt_puts m cmp es r n = Some (r', n') /\ btS r' n' /\
+                bt_inorder r' = fold_left (mstep cmp) (puts es) (bt_inorder r).
+Proof.
+  induction es as [|[k v] es IH]; intros r n Hs.
+  - exists r, n. split; [reflexivity|]. split; [exact Hs|reflexivity].
+  - destruct (bt_put_sim k v r n Hs) as (r1 & n1 & E1 & H1 & I1).
+    destruct (IH r1 n1 H1) as (r2 & n2 & E2 & H2 & I2).
+    exists r2, n2. cbn [bt_puts]. rewrite E1. split; [exact E2|]. split; [exact H2|].
+    rewrite I2, I1. reflexivity.
+Qed.
+
+(* a removal that reports "not removed" hands back the very same node *)
+Lemma bt_del_false : forall fuel k n n', BT.del m cmp fuel k n = Some (n', false) -> n' = n.
+Proof.
+  induction fuel as [|f IH]; intros k [es cs] n' H; [discriminate|].
+  cbn [BT.del] in H. destruct (BT.search cmp k es) as [pos found].
+  destruct cs as [|c0 cs0].
+  - destruct found; inversion H; reflexivity.
+  - destruct (nth_error (c0 :: cs0) pos) as [c|]; [|discriminate].
+    destruct found.
+    + destruct (BT.delmax m f c) as [[c' pr]|]; [|discriminate].
+      destruct (BT.rebalance_child m _ _ pos); inversion H.
+    + destruct (BT.del m cmp f k c) as [[c' b]|]; [|discriminate].
+      destruct b; [|inversion H; reflexivity].
+      destruct (BT.rebalance_child m _ _ pos); inversion H.
+Qed.
+End BTK.
+
+(* ---------- the machine invariant of the six kinds ---------- *)
+Definition inv (c : config) (s : state) : Prop :=
+  match ckind c, s with
+  | (RedBlackTree | TreeMap), StRB t n => rbI (kc c) (t, n)
+  | AVLTree, StAVL t n => avlI (kc c) t n
+  | BTree, StBT r n => btS (bt_m c) (kc c) r n
+  | HashMap, StHMap l => ksorted Z.compare l
+  | LinkedHashMap, StLMap tbl ord => lmI (tbl, ord)
+  | _, _ => False
+  end.
+
+(* the abstract content: the in-order entry list (the canonical table for LinkedHashMap) *)
+Definition abs (c : config) (s : state) : list entry :=
+  match s with
+  | StLMap tbl _ => tbl
+  | _ => entries_of c s
+  end.
+
+Lemma valid_bt_m : forall c, valid c -> ckind c = BTree -> (3 <= bt_m c)%nat.
+Proof. intros c [_ H] K. specialize (H K). unfold bt_m. lia. Qed.
+
+Lemma inv_not_crash : forall c s, inv c s -> s <> StCrash.
+Proof. intros c s H E. subst s. unfold inv in H. destruct (ckind c); exact H. Qed.
+
+Lemma inv_init : forall c, valid c -> inv c (init c) /\ abs c (init c) = [].
+Proof.
+  intros c Hv. pose proof (valid_bt_m c Hv) as Hm. destruct Hv as [Hk Hord].
+  unfold inv, init. destruct (ckind c) eqn:K; try discriminate; cbn [abs entries_of].
+  - split; [constructor|reflexivity].
+  - split; [apply rbI_empty|reflexivity].
+  - split; [|reflexivity]. unfold lmI. cbn [fst snd map].
+    split; [constructor|]. split; [constructor|]. intros k. reflexivity.
+  - split; [apply rbI_empty|reflexivity].
+  - split; [|reflexivity]. split; [exact I|]. split; [constructor|reflexivity].
+  - specialize (Hord eq_refl). destruct (corder c <? 3) eqn:E; [apply Z.ltb_lt in E; lia|].
+    split; [|reflexivity]. split; [apply btI_empty|reflexivity].
+Qed.
+
+Ltac inv_cases c s Hi K :=
+  unfold inv in Hi; destruct (ckind c) eqn:K; try discriminate; destruct s; try contradiction.
+
+Lemma put_entries_sim : forall c es s, valid c -> inv c s ->
+  inv c (put_entries c es s) /\
+  abs c (put_entries c es s) = fold_left (mstep (cmp_for c)) (puts es) (abs c s).
+Proof.
+  intros c es s Hv Hi. pose proof (valid_bt_m c Hv) as Hm. destruct Hv as [Hk _].
+  unfold cmp_for. inv_cases c s Hi K; unfold inv; rewrite K; cbn [put_entries abs entries_of].
+  - apply hputs_sim. exact Hi.
+  - destruct (rbs_puts_sim (kc c) (kc_SWO c) es (t, n) Hi) as ([t' n'] & E & H' & I').
+    rewrite E. cbn [abs entries_of]. split; [exact H'|exact I'].
+  - destruct (lmap_puts_sim es (tbl, ord) Hi) as [H' I'].
+    destruct (fold_left _ es (tbl, ord)) as [t' o']. cbn [abs]. split; [exact H'|exact I'].
+  - destruct (rbs_puts_sim (kc c) (kc_SWO c) es (t, n) Hi) as ([t' n'] & E & H' & I').
+    rewrite E. cbn [abs entries_of]. split; [exact H'|exact I'].
+  - destruct (avl_puts_sim (kc c) (kc_SWO c) es t n Hi) as (t' & n' & E & H' & I').
+    rewrite E. cbn [abs entries_of]. split; [exact H'|exact I'].
+  - destruct (bt_puts_sim (bt_m c) (kc c) (Hm eq_refl) (kc_SWO c) es r n Hi) as (r' & n' & E & H' & I').
+    rewrite E. cbn [abs entries_of]. split; [exact H'|exact I'].
+Qed.
+
+(* ---------- one step ---------- *)
+Definition mutator (o : op) : bool :=
+  match o with Put _ _ | Remove _ | Clear | FromJSON _ => true | _ => false end.
+
+(* every other operation (observers, operations the kind does not offer) leaves the state alone *)
+Lemma step_observer : forall c s o, inv c s -> mutator o = false -> fst (fst (step c s o)) = s.
+Proof.
+  intros c s o Hi Hmu.
+  inv_cases c s Hi K; destruct o; try discriminate Hmu; unfold step; rewrite ?K;
+    try reflexivity; cbn [has_enumerable negb]; try reflexivity;
+    destruct (each_of _ _); reflexivity.
+Qed.
+
+Lemma step_clear : forall c s, inv c s -> fst (fst (step c s Clear)) = init c.
+Proof. intros c s Hi. inv_cases c s Hi K; reflexivity. Qed.
+
+Lemma is_kv_map_kind : forall k, map_kind k = true -> is_kv k = true.
+Proof. intros k. destruct k; cbn; congruence. Qed.
+
+Lemma step_from_json : forall c s d, valid c -> inv c s ->
+  fst (fst (step c s (FromJSON d))) =
+  match d with
+  | DObj kvs => put_entries c (json_entries c kvs) (init c)
+  | DNull => init c
+  | _ => s
+  end.
+Proof.
+  intros c s d [Hk _] Hi. pose proof (is_kv_map_kind _ Hk) as Hkv.
+  assert (E : from_json c d s =
+              match d with
+              | DObj kvs => (put_entries c (json_entries c kvs) (init c), true)
+              | DNull => (init c, true)
+              | _ => (s, false)
+              end).
+  { unfold from_json, json_entries. rewrite Hkv.
+    inv_cases c s Hi K; destruct d; reflexivity. }
+  assert (S : step c s (FromJSON d) = let '(s', ok) := from_json c d s in (s', obool ok, onone)).
+  { inv_cases c s Hi K; reflexivity. }
+  rewrite S, E. destruct d; reflexivity.
+Qed.
+
+Lemma step_sim : forall c s o, valid c -> inv c s ->
+  inv c (fst (fst (step c s o))) /\
+  abs c (fst (fst (step c s o))) = fold_left (mstep (cmp_for c)) (hist1 c o) (abs c s).
+Proof.
+  intros c s o Hv Hi.
+  destruct (mutator o) eqn:Hmu.
+  2:{ rewrite (step_observer c s o Hi Hmu). split; [exact Hi|]. destruct o; try discriminate Hmu; reflexivity. }
+  destruct o; try discriminate Hmu.
+  - (* Put *)
+    pose proof (valid_bt_m c Hv) as Hm. unfold cmp_for.
+    inv_cases c s Hi K; unfold inv; rewrite K; unfold step; rewrite ?K; cbn [hist1 fold_left mstep].
+    + cbn [fst abs entries_of]. split; [apply (ins_list_sorted Z.compare Zcompare_SWO); exact Hi|reflexivity].
+    + destruct (rbs_put_sim (kc c) (kc_SWO c) k v (t, n) Hi) as ([t' n'] & E & H' & I').
+      rewrite E. cbn [fst abs entries_of]. split; [exact H'|exact I'].
+    + destruct (lmap_put_sim k v (tbl, ord) Hi) as [H' I'].
+      destruct (lmap_put k v (tbl, ord)) as [t' o']. cbn [fst abs]. split; [exact H'|exact I'].
+    + destruct (rbs_put_sim (kc c) (kc_SWO c) k v (t, n) Hi) as ([t' n'] & E & H' & I').
+      rewrite E. cbn [fst abs entries_of]. split; [exact H'|exact I'].
+    + destruct (avl_put_sim (kc c) (kc_SWO c) k v t n Hi) as (t' & n' & E & H' & I').
+      rewrite E. cbn [fst abs entries_of]. split; [exact H'|exact I'].
+    + destruct (bt_put_sim (bt_m c) (kc c) (Hm eq_refl) (kc_SWO c) k v r n Hi) as (r' & n' & E & H' & I').
+      rewrite E. cbn [fst abs entries_of]. split; [exact H'|exact I'].
+  - (* Remove *)
+    pose proof (valid_bt_m c Hv) as Hm. unfold cmp_for.
+    inv_cases c s Hi K; unfold inv; rewrite K; unfold step; rewrite ?K; cbn [hist1 fold_left mstep].
+    + cbn [fst abs entries_of]. split; [apply (del_list_sorted Z.compare); exact Hi|reflexivity].
+    + destruct (rbs_remove_sim (kc c) (kc_SWO c) k (t, n) Hi) as ([t' n'] & E & H' & I').
+      rewrite E. cbn [fst abs entries_of]. split; [exact H'|exact I'].
+    + destruct (lmap_remove_sim k (tbl, ord) Hi) as [H' I'].
+      destruct (lmap_remove k (tbl, ord)) as [t' o']. cbn [fst abs]. split; [exact H'|exact I'].
+    + destruct (rbs_remove_sim (kc c) (kc_SWO c) k (t, n) Hi) as ([t' n'] & E & H' & I').
+      rewrite E. cbn [fst abs entries_of]. split; [exact H'|exact I'].
+    + destruct (avl_remove_sim (kc c) (kc_SWO c) k t n Hi) as (t' & n' & E & H' & I').
+      rewrite E. cbn [fst abs entries_of]. split; [exact H'|exact I'].
+    + destruct (bt_remove_sim (bt_m c) (kc c) (Hm eq_refl) (kc_SWO c) k r n Hi) as (r' & n' & E & H' & I').
+      rewrite E. cbn [fst abs entries_of]. split; [exact H'|exact I'].
+  - (* Clear *)
+    rewrite (step_clear c s Hi). cbn [hist1 fold_left mstep]. apply inv_init. exact Hv.
+  - (* FromJSON *)
+    rewrite (step_from_json c s d Hv Hi). destruct (inv_init c Hv) as [Hi0 Ha0].
+    destruct d as [| |vs|kvs]; cbn [hist1 fold_left mstep].
+    + split; [exact Hi|reflexivity].
+    + split; [exact Hi0|exact Ha0].
+    + split; [exact Hi|reflexivity].
+    + destruct (put_entries_sim c (json_entries c kvs) (init c) Hv Hi0) as [H' I'].
+      split; [exact H'|]. rewrite I', Ha0. reflexivity.
+Qed.
+
+(* ---------- all runs ---------- *)
+Lemma run_from_sim : forall c ops s, valid c -> inv c s ->
+  inv c (run_from c s ops) /\
+  abs c (run_from c s ops) = fold_left (mstep (cmp_for c)) (hist c ops) (abs c s).
+Proof.
+  intros c ops. induction ops as [|o ops IH]; intros s Hv Hi; [split; [exact Hi|reflexivity]|].
+  unfold run_from, hist. cbn [fold_left flat_map]. rewrite fold_left_app.
+  destruct (step_sim c s o Hv Hi) as [H1 E1].
+  destruct (IH _ Hv H1) as [H2 E2]. unfold run_from, hist in H2, E2.
+  split; [exact H2|]. rewrite E2, E1. reflexivity.
+Qed.
+
+Theorem run_sim : forall c ops, valid c ->
+  inv c (run c ops) /\ abs c (run c ops) = mrun (cmp_for c) (hist c ops).
+Proof.
+  intros c ops Hv. destruct (inv_init c Hv) as [Hi0 Ha0].
+  destruct (run_from_sim c ops (init c) Hv Hi0) as [H E].
+  split; [exact H|]. unfold run. rewrite E, Ha0. reflexivity.
+Qed.
+
+Theorem run_not_crash : forall c ops, valid c -> run c ops <> StCrash.
+Proof. intros c ops Hv. eapply inv_not_crash. apply run_sim. exact Hv. Qed.
+
+(* ---------- what the observers return, in terms of the abstract content ---------- *)
+Lemma abs_entries : forall c s, inv c s -> ckind c <> LinkedHashMap -> abs c s = entries_of c s.
+Proof. intros c s Hi Hk. inv_cases c s Hi K; try reflexivity; congruence. Qed.
+
+Lemma abs_sorted : forall c s, valid c -> inv c s -> ksorted (cmp_for c) (abs c s).
+Proof.
+  intros c s Hv Hi. pose proof (valid_bt_m c Hv) as Hm. unfold cmp_for.
+  inv_cases c s Hi K; cbn [abs entries_of].
+  - exact Hi.
+  - apply Hi.
+  - apply Hi.
+  - apply Hi.
+  - apply Hi.
+  - destruct Hi as [HI _]. eapply bt_sorted; [exact (Hm eq_refl)|apply kc_SWO|exact HI].
+Qed.
+
+Lemma opt_snd_match : forall (o : option (Z * Z)),
+  match o with Some (_, v) => Some v | None => None end = option_map snd o.
+Proof. intros [[a b]|]; reflexivity. Qed.
+
+Lemma get_abs : forall c s k, valid c -> inv c s ->
+  get_of c s k = oopt (option_map snd (find_list (cmp_for c) k (abs c s))).
+Proof.
+  intros c s k Hv Hi. pose proof (valid_bt_m c Hv) as Hm. unfold cmp_for.
+  inv_cases c s Hi K; cbn [get_of abs entries_of].
+  - rewrite hget_find. reflexivity.
+  - rewrite (rbs_get_spec (kc c) (kc_SWO c)) by apply Hi. reflexivity.
+  - rewrite hget_find. reflexivity.
+  - rewrite (rbs_get_spec (kc c) (kc_SWO c)) by apply Hi. reflexivity.
+  - destruct Hi as (_ & Hb & _).
+    rewrite (AVLMap.lookup_spec (kc c) (kc_SWO c) k t Hb), opt_snd_match. reflexivity.
+  - destruct Hi as [HI _].
+    rewrite (bt_get_spec (bt_m c) (kc c) (Hm eq_refl) (kc_SWO c) k r HI), opt_snd_match. reflexivity.
+Qed.
+
+Lemma size_abs : forall c s, valid c -> inv c s -> size_of c s = Z.of_nat (length (abs c s)).
+Proof.
+  intros c s Hv Hi. inv_cases c s Hi K; cbn [size_of abs entries_of].
+  - reflexivity.
+  - apply Hi.
+  - (* LinkedHashMap reports the size of the ordering list *)
+    pose proof (lmap_entries_perm tbl ord Hi) as Hp. apply Permutation_length in Hp.
+    unfold lmap_entries in Hp. rewrite map_length in Hp. unfold zlen. rewrite Hp. reflexivity.
+  - apply Hi.
+  - apply Hi.
+  - apply Hi.
+Qed.
+
+(* Keys() and Values() are the two projections of one entry sequence: position-aligned *)
+Lemma values_entries : forall c s, inv c s -> values_of c s = map snd (entries_of c s).
+Proof.
+  intros c s Hi. inv_cases c s Hi K; cbn [values_of entries_of]; rewrite ?K; try reflexivity.
+  unfold lmap_entries. rewrite map_map. reflexivity.
+Qed.
+
+Lemma entries_perm_abs : forall c s, inv c s -> Permutation (entries_of c s) (abs c s).
+Proof.
+  intros c s Hi. inv_cases c s Hi K; cbn [abs entries_of]; try apply Permutation_refl.
+  apply lmap_entries_perm. exact Hi.
+Qed.
+
+Lemma keys_linked : forall c tbl ord, keys_of c (StLMap tbl ord) = ord.
+Proof.
+  intros c tbl ord. unfold keys_of. cbn [entries_of]. unfold lmap_entries. rewrite map_map. cbn [fst].
+  apply map_id.
+Qed.
+
+Lemma NoDup_NoDupA_Z : forall l : list Z, NoDup l -> NoDupA (fun a b => Z.compare a b = Eq) l.
+Proof.
+  intros l H. induction H as [|x l Hx Hnd IH]; constructor; [|exact IH].
+  intros Hin. apply InA_alt in Hin. destruct Hin as (y & Hxy & Hy). apply Z.compare_eq in Hxy.
+  subst y. exact (Hx Hy).
+Qed.
+
+Lemma keys_nodupA : forall c s, valid c -> inv c s ->
+  NoDupA (fun a b => cmp_for c a b = Eq) (keys_of c s).
+Proof.
+  intros c s Hv Hi. destruct (kind_eq_dec_lhm c) as [K|K].
+  - pose proof Hi as Hi'. unfold cmp_for. rewrite K. unfold inv in Hi'. rewrite K in Hi'.
+    destruct s; try contradiction. rewrite keys_linked. apply NoDup_NoDupA_Z. apply Hi'.
+  - unfold keys_of. rewrite <- (abs_entries c s Hi K). apply ksorted_keys_nodupA.
+    apply abs_sorted; assumption.
+Qed.
+
+(* ================================================================================================ *)
+(* 4. refinement theorems and property C01                                                          *)
+(* ================================================================================================ *)
+Theorem refines_tree : forall c ops, valid c -> ckind c <> LinkedHashMap ->
+  entries_of c (run c ops) = mrun (cmp_for c) (hist c ops).
+Proof.
+  intros c ops Hv K. destruct (run_sim c ops Hv) as [Hi Ha].
+  rewrite <- (abs_entries c _ Hi K). exact Ha.
+Qed.
+
+Theorem refines_linked : forall c ops, valid c -> ckind c = LinkedHashMap ->
+  Permutation (entries_of c (run c ops)) (mrun Z.compare (hist c ops)) /\
+  NoDup (keys_of c (run c ops)).
+Proof.
+  intros c ops Hv K. destruct (run_sim c ops Hv) as [Hi Ha].
+  assert (Ec : cmp_for c = Z.compare) by (unfold cmp_for; rewrite K; reflexivity).
+  rewrite Ec in Ha. split.
+  - rewrite <- Ha. apply entries_perm_abs. exact Hi.
+  - unfold inv in Hi. rewrite K in Hi. destruct (run c ops); try contradiction.
+    rewrite keys_linked. apply Hi.
+Qed.
+
+(* all six kinds at once: the entries are a permutation of the abstract state (equal for five) *)
+Theorem refines_perm : forall c ops, valid c ->
+  Permutation (entries_of c (run c ops)) (mrun (cmp_for c) (hist c ops)).
+Proof.
+  intros c ops Hv. destruct (run_sim c ops Hv) as [Hi Ha]. rewrite <- Ha.
+  apply entries_perm_abs. exact Hi.
+Qed.
+
+(* C01, Get: purely in terms of the history *)
+Theorem C01_get : forall c ops k, valid c ->
+  get_of c (run c ops) k = oopt (option_map snd (last_live (cmp_for c) (rev (hist c ops)) k)).
+Proof.
+  intros c ops k Hv. destruct (run_sim c ops Hv) as [Hi Ha].
+  rewrite (get_abs c _ k Hv Hi), Ha, (mrun_last_live _ (cmp_for_SWO c)). reflexivity.
+Qed.
+
+(* C01, Size *)
+Theorem C01_size : forall c ops, valid c ->
+  size_of c (run c ops) = Z.of_nat (length (mrun (cmp_for c) (hist c ops))).
+Proof.
+  intros c ops Hv. destruct (run_sim c ops Hv) as [Hi Ha].
+  rewrite (size_abs c _ Hv Hi), Ha. reflexivity.
+Qed.
+
+(* C01, Keys / Values, position-aligned (five kinds: exact lists) *)
+Theorem C01_keys_values : forall c ops, valid c -> ckind c <> LinkedHashMap ->
+  keys_of c (run c ops) = map fst (mrun (cmp_for c) (hist c ops)) /\
+  values_of c (run c ops) = map snd (mrun (cmp_for c) (hist c ops)).
+Proof.
+  intros c ops Hv K. destruct (run_sim c ops Hv) as [Hi _].
+  rewrite (values_entries c _ Hi). unfold keys_of. rewrite (refines_tree c ops Hv K). split; reflexivity.
+Qed.
+
+(* an entry is enumerated iff it is the last live Put of its key (all six kinds) *)
+Theorem C01_entry_iff : forall c ops e, valid c ->
+  In e (entries_of c (run c ops)) <-> last_live (cmp_for c) (rev (hist c ops)) (fst e) = Some e.
+Proof.
+  intros c ops e Hv. rewrite <- (mrun_In_last_live _ (cmp_for_SWO c)).
+  pose proof (refines_perm c ops Hv) as Hp. split; intros H.
+  - eapply Permutation_in; eassumption.
+  - eapply Permutation_in; [apply Permutation_sym; exact Hp|exact H].
+Qed.
+
+(* Keys() and Values() are the projections of one entry sequence, so the i-th value belongs to the
+   i-th key; and that value is the one stored by the last live Put of that key (all six kinds) *)
+Theorem C01_aligned : forall c ops, valid c ->
+  keys_of c (run c ops) = map fst (entries_of c (run c ops)) /\
+  values_of c (run c ops) = map snd (entries_of c (run c ops)) /\
+  values_of c (run c ops) =
+    map (fun k => match last_live (cmp_for c) (rev (hist c ops)) k with Some e => snd e | None => 0 end)
+        (keys_of c (run c ops)).
+Proof.
+  intros c ops Hv. destruct (run_sim c ops Hv) as [Hi _].
+  split; [reflexivity|]. split; [apply values_entries; exact Hi|].
+  rewrite (values_entries c _ Hi). unfold keys_of. rewrite map_map.
+  apply map_ext_in. intros e He. apply (C01_entry_iff c ops e Hv) in He. rewrite He. reflexivity.
+Qed.
+
+(* every key exactly once: no two enumerated keys compare Eq *)
+Theorem C01_nodup : forall c ops, valid c ->
+  NoDupA (fun a b => cmp_for c a b = Eq) (keys_of c (run c ops)).
+Proof. intros c ops Hv. apply keys_nodupA; [exact Hv|]. apply run_sim. exact Hv. Qed.
+
+(* LinkedHashMap: same content in some order (the order is property C09) *)
+Theorem C01_linked : forall c ops, valid c -> ckind c = LinkedHashMap ->
+  Permutation (entries_of c (run c ops)) (mrun Z.compare (hist c ops)) /\
+  Permutation (keys_of c (run c ops)) (map fst (mrun Z.compare (hist c ops))) /\
+  Permutation (values_of c (run c ops)) (map snd (mrun Z.compare (hist c ops))) /\
+  NoDup (keys_of c (run c ops)).
+Proof.
+  intros c ops Hv K. destruct (refines_linked c ops Hv K) as [Hp Hnd].
+  destruct (run_sim c ops Hv) as [Hi _].
+  split; [exact Hp|]. split; [unfold keys_of; apply Permutation_map; exact Hp|].
+  split; [rewrite (values_entries c _ Hi); apply Permutation_map; exact Hp|exact Hnd].
+Qed.
+
+(* removing an absent key changes nothing: the very same STATE (no rebalancing, no recolouring) *)
+Lemma oopt_nil : forall o, oopt o = OL [] -> o = None.
+Proof. intros [v|] H; [discriminate|reflexivity]. Qed.
+
+Lemma opt_match_none : forall (o : option (Z * Z)),
+  match o with Some (_, v) => Some v | None => None end = None -> o = None.
+Proof. intros [[a b]|] H; [discriminate|reflexivity]. Qed.
+
+Lemma remove_absent_state : forall c s k, valid c -> inv c s ->
+  get_of c s k = OL [] -> fst (fst (step c s (Remove k))) = s.
+Proof.
+  intros c s k Hv Hi Hg. pose proof (valid_bt_m c Hv) as Hm.
+  inv_cases c s Hi K; cbn [get_of] in Hg; apply oopt_nil in Hg; unfold step; rewrite ?K.
+  - (* HashMap *)
+    cbn [fst]. f_equal. unfold hdel. apply (del_absent Z.compare); [exact Hi|].
+    unfold mem_list. rewrite hget_find in Hg. destruct (find_list Z.compare k l); [discriminate|reflexivity].
+  - (* TreeMap *)
+    unfold rbs_get in Hg. cbn [fst] in Hg. apply opt_match_none in Hg.
+    unfold rbs_remove. cbn [fst snd]. rewrite (rb_remove_absent (kc c) k t Hg). reflexivity.
+  - (* LinkedHashMap *)
+    unfold lmap_remove. rewrite hmem_mem. unfold mem_list. rewrite hget_find in Hg.
+    destruct (find_list Z.compare k tbl); [discriminate|reflexivity].
+  - (* RedBlackTree *)
+    unfold rbs_get in Hg. cbn [fst] in Hg. apply opt_match_none in Hg.
+    unfold rbs_remove. cbn [fst snd]. rewrite (rb_remove_absent (kc c) k t Hg). reflexivity.
+  - (* AVLTree *)
+    apply opt_match_none in Hg. unfold avl_remove.
+    rewrite (avl_remove_absent (kc c) k t Hg). reflexivity.
+  - (* BTree *)
+    apply opt_match_none in Hg. destruct Hi as [HI Hn].
+    rewrite (bt_get_spec (bt_m c) (kc c) (Hm eq_refl) (kc_SWO c) k r HI) in Hg.
+    destruct (bt_remove_total (bt_m c) (kc c) (Hm eq_refl) (kc_SWO c) k r HI) as (r' & b & Hrm & _ & _ & Hb).
+    unfold mem_list in Hb. rewrite Hg in Hb. subst b.
+    assert (Er : r' = r).
+    { destruct r as [nd|]; cbn [BT.remove] in Hrm; [|inversion Hrm; reflexivity].
+      pose proof (bt_root_nonempty (bt_m c) (kc c) (Hm eq_refl) (kc_SWO c) nd HI) as Hne.
+      destruct (BT.del (bt_m c) (kc c) (bt_fuel (Some nd)) k nd) as [[n' b']|] eqn:Ed; [|discriminate].
+      assert (b' = false).
+      { destruct n' as [[|e0 es0] [|c0 cs0]]; inversion Hrm; reflexivity. }
+      subst b'. apply bt_del_false in Ed. subst n'.
+      destruct nd as [[|e0 es0] cs0]; [cbn in Hne; congruence|].
+      inversion Hrm; reflexivity. }
+    subst r'. unfold bt_remove. rewrite Hrm. reflexivity.
+Qed.
+
+Theorem C01_remove_absent : forall c ops k, valid c ->
+  get_of c (run c ops) k = OL [] ->
+  fst (fst (step c (run c ops) (Remove k))) = run c ops.
+Proof. intros c ops k Hv. apply remove_absent_state; [exact Hv|]. apply run_sim. exact Hv. Qed.
+
+(* ================================================================================================ *)
+(* 5. property C02: the ordered kinds                                                               *)
+(* ================================================================================================ *)
+(* ... and they are exactly the components of the observation vector *)
+Lemma observe_left_right : forall c s, ordered_kind (ckind c) = true -> inv c s ->
+  In (TLeft, oopt2 (left_of s)) (observe c 1 s) /\ In (TRight, oopt2 (right_of s)) (observe c 1 s).
+Proof.
+  intros c s Ho Hi.
+  inv_cases c s Hi K; try discriminate Ho; unfold observe; rewrite K;
+    change (1 <=? 1) with true; cbv iota; cbn [andb is_kv];
+    rewrite !in_app_iff; cbn [left_of right_of];
+    (split; do 4 right; left; [left; reflexivity | right; left; reflexivity]).
+Qed.
+
+Lemma observe_floor_ceiling : forall c s, ordered_kind (ckind c) = true -> ckind c <> BTree -> inv c s ->
+  In (TFloor, OL (map (fun p => oopt2 (floor_of c s p)) (probes c))) (observe c 1 s) /\
+  In (TCeiling, OL (map (fun p => oopt2 (ceiling_of c s p)) (probes c))) (observe c 1 s).
+Proof.
+  intros c s Ho Hb Hi.
+  inv_cases c s Hi K; try discriminate Ho; try congruence; unfold observe; rewrite K;
+    change (1 <=? 1) with true; cbv iota; cbn [andb is_kv];
+    rewrite !in_app_iff; cbn [floor_of ceiling_of];
+    (split; do 4 right; left; [do 2 right; left; reflexivity | do 3 right; left; reflexivity]).
+Qed.
+
+Lemma ordered_cmp_for : forall c, ordered_kind (ckind c) = true -> cmp_for c = kc c.
+Proof. intros c H. unfold cmp_for. destruct (ckind c); try discriminate H; reflexivity. Qed.
+
+Lemma ordered_not_linked : forall c, ordered_kind (ckind c) = true -> ckind c <> LinkedHashMap.
+Proof. intros c H E. rewrite E in H. discriminate. Qed.
+
+Lemma nav_abs : forall c s, valid c -> ordered_kind (ckind c) = true -> inv c s ->
+  left_of s = hd_error (entries_of c s) /\ right_of s = last_opt (entries_of c s).
+Proof.
+  intros c s Hv Ho Hi. pose proof (valid_bt_m c Hv) as Hm.
+  inv_cases c s Hi K; try discriminate Ho; cbn [left_of right_of entries_of].
+  - split; [apply RBMap.leftmost_spec | apply RBMap.rightmost_spec].
+  - split; [apply RBMap.leftmost_spec | apply RBMap.rightmost_spec].
+  - split; [apply AVLMap.leftmost_spec | apply AVLMap.rightmost_spec].
+  - destruct r as [nd|]; [|split; reflexivity]. destruct Hi as [HI _].
+    exact (bt_left_right (bt_m c) (kc c) (Hm eq_refl) (kc_SWO c) nd HI).
+Qed.
+
+Lemma floor_ceiling_abs : forall c s p, valid c -> ordered_kind (ckind c) = true -> ckind c <> BTree ->
+  inv c s ->
+  floor_of c s p = floor_list (kc c) p (entries_of c s) /\
+  ceiling_of c s p = ceiling_list (kc c) p (entries_of c s).
+Proof.
+  intros c s p Hv Ho Hb Hi.
+  inv_cases c s Hi K; try discriminate Ho; try congruence; cbn [floor_of ceiling_of entries_of].
+  - destruct Hi as (_ & Hbst & _).
+    split; [apply (RBMap.floor_spec _ (kc_SWO c)) | apply (RBMap.ceiling_spec _ (kc_SWO c))]; exact Hbst.
+  - destruct Hi as (_ & Hbst & _).
+    split; [apply (RBMap.floor_spec _ (kc_SWO c)) | apply (RBMap.ceiling_spec _ (kc_SWO c))]; exact Hbst.
+  - destruct Hi as (_ & Hbst & _).
+    split; [apply (AVLMap.floor_spec _ (kc_SWO c)) | apply (AVLMap.ceiling_spec _ (kc_SWO c))]; exact Hbst.
+Qed.
+
+(* Keys()/Values() enumerate in strictly ascending comparator order *)
+Theorem C02_sorted : forall c ops, valid c -> ordered_kind (ckind c) = true ->
+  ksorted (kc c) (entries_of c (run c ops)).
+Proof.
+  intros c ops Hv Ho. rewrite (refines_tree c ops Hv (ordered_not_linked c Ho)).
+  rewrite (ordered_cmp_for c Ho). apply mrun_sorted. apply kc_SWO.
+Qed.
+
+Lemma ksorted_keys : forall cmp l, ksorted cmp l -> StronglySorted (fun a b => cmp a b = Lt) (map fst l).
+Proof.
+  intros cmp l H. induction H as [|x l Hs IH Hx]; cbn [map]; constructor; [exact IH|].
+  rewrite Forall_map. exact Hx.
+Qed.
+
+Theorem C02_keys_sorted : forall c ops, valid c -> ordered_kind (ckind c) = true ->
+  StronglySorted (fun a b => kc c a b = Lt) (keys_of c (run c ops)).
+Proof. intros c ops Hv Ho. unfold keys_of. apply ksorted_keys. apply C02_sorted; assumption. Qed.
+
+(* keys that compare equal are one key *)
+Theorem C02_one_key : forall c ops, valid c -> ordered_kind (ckind c) = true ->
+  NoDupA (fun a b => kc c a b = Eq) (keys_of c (run c ops)).
+Proof. intros c ops Hv Ho. rewrite <- (ordered_cmp_for c Ho). apply C01_nodup. exact Hv. Qed.
+
+(* Left / Right *)
+Theorem C02_left : forall c ops, valid c -> ordered_kind (ckind c) = true ->
+  left_of (run c ops) = hd_error (entries_of c (run c ops)).
+Proof. intros c ops Hv Ho. apply nav_abs; [exact Hv|exact Ho|]. apply run_sim. exact Hv. Qed.
+
+Theorem C02_right : forall c ops, valid c -> ordered_kind (ckind c) = true ->
+  right_of (run c ops) = last_opt (entries_of c (run c ops)).
+Proof. intros c ops Hv Ho. apply nav_abs; [exact Hv|exact Ho|]. apply run_sim. exact Hv. Qed.
+
+(* Left is the least entry, Right the greatest; not-found exactly on the empty container *)
+Theorem C02_left_least : forall c ops, valid c -> ordered_kind (ckind c) = true ->
+  match left_of (run c ops) with
+  | Some e => In e (entries_of c (run c ops)) /\
+              forall e', In e' (entries_of c (run c ops)) -> e' = e \/ kc c (fst e) (fst e') = Lt
+  | None => entries_of c (run c ops) = []
+  end.
+Proof.
+  intros c ops Hv Ho. rewrite (C02_left c ops Hv Ho).
+  pose proof (C02_sorted c ops Hv Ho) as Hs.
+  destruct (hd_error (entries_of c (run c ops))) as [e|] eqn:E.
+  - exact (hd_least (kc c) _ e Hs E).
+  - apply hd_error_None_iff. exact E.
+Qed.
+
+Theorem C02_right_greatest : forall c ops, valid c -> ordered_kind (ckind c) = true ->
+  match right_of (run c ops) with
+  | Some e => In e (entries_of c (run c ops)) /\
+              forall e', In e' (entries_of c (run c ops)) -> e' = e \/ kc c (fst e') (fst e) = Lt
+  | None => entries_of c (run c ops) = []
+  end.
+Proof.
+  intros c ops Hv Ho. rewrite (C02_right c ops Hv Ho).
+  pose proof (C02_sorted c ops Hv Ho) as Hs.
+  destruct (last_opt (entries_of c (run c ops))) as [e|] eqn:E.
+  - exact (last_greatest (kc c) _ e Hs E).
+  - apply last_opt_None. exact E.
+Qed.
+
+(* Floor / Ceiling (RedBlackTree, TreeMap, AVLTree: the B-tree has no Floor / Ceiling) *)
+Theorem C02_floor : forall c ops p, valid c -> ordered_kind (ckind c) = true -> ckind c <> BTree ->
+  floor_of c (run c ops) p = floor_list (kc c) p (entries_of c (run c ops)).
+Proof. intros c ops p Hv Ho Hb. apply floor_ceiling_abs; try assumption. apply run_sim. exact Hv. Qed.
+
+Theorem C02_ceiling : forall c ops p, valid c -> ordered_kind (ckind c) = true -> ckind c <> BTree ->
+  ceiling_of c (run c ops) p = ceiling_list (kc c) p (entries_of c (run c ops)).
+Proof. intros c ops p Hv Ho Hb. apply floor_ceiling_abs; try assumption. apply run_sim. exact Hv. Qed.
+
+(* Floor(p): the greatest entry not above p; nothing lies strictly between it and p;
+   not-found exactly when every entry is above p *)
+Theorem C02_floor_char : forall c ops p, valid c -> ordered_kind (ckind c) = true -> ckind c <> BTree ->
+  match floor_of c (run c ops) p with
+  | Some e => In e (entries_of c (run c ops)) /\ kc c p (fst e) <> Lt /\
+              (forall e', In e' (entries_of c (run c ops)) -> kc c p (fst e') <> Lt ->
+                          e' = e \/ kc c (fst e') (fst e) = Lt) /\
+              (forall e', In e' (entries_of c (run c ops)) -> kc c (fst e) (fst e') = Lt ->
+                          kc c p (fst e') = Lt)
+  | None => forall e', In e' (entries_of c (run c ops)) -> kc c p (fst e') = Lt
+  end.
+Proof.
+  intros c ops p Hv Ho Hb. rewrite (C02_floor c ops p Hv Ho Hb).
+  exact (floor_list_spec (kc c) (kc_SWO c) p _ (C02_sorted c ops Hv Ho)).
+Qed.
+
+Theorem C02_ceiling_char : forall c ops p, valid c -> ordered_kind (ckind c) = true -> ckind c <> BTree ->
+  match ceiling_of c (run c ops) p with
+  | Some e => In e (entries_of c (run c ops)) /\ kc c p (fst e) <> Gt /\
+              (forall e', In e' (entries_of c (run c ops)) -> kc c p (fst e') <> Gt ->
+                          e' = e \/ kc c (fst e) (fst e') = Lt) /\
+              (forall e', In e' (entries_of c (run c ops)) -> kc c (fst e') (fst e) = Lt ->
+                          kc c p (fst e') = Gt)
+  | None => forall e', In e' (entries_of c (run c ops)) -> kc c p (fst e') = Gt
+  end.
+Proof.
+  intros c ops p Hv Ho Hb. rewrite (C02_ceiling c ops p Hv Ho Hb).
+  exact (ceiling_list_spec (kc c) (kc_SWO c) p _ (C02_sorted c ops Hv Ho)).
+Qed.
+
+(* the navigation results are what the observation vector shows *)
+Theorem C02_observed : forall c ops, valid c -> ordered_kind (ckind c) = true ->
+  In (TLeft, oopt2 (left_of (run c ops))) (observe c 1 (run c ops)) /\
+  In (TRight, oopt2 (right_of (run c ops))) (observe c 1 (run c ops)) /\
+  (ckind c <> BTree ->
+   In (TFloor, OL (map (fun p => oopt2 (floor_of c (run c ops) p)) (probes c))) (observe c 1 (run c ops)) /\
+   In (TCeiling, OL (map (fun p => oopt2 (ceiling_of c (run c ops) p)) (probes c))) (observe c 1 (run c ops))).
+Proof.
+  intros c ops Hv Ho. destruct (run_sim c ops Hv) as [Hi _].
+  destruct (observe_left_right c _ Ho Hi) as [H1 H2]. split; [exact H1|]. split; [exact H2|].
+  intros Hb. apply observe_floor_ceiling; assumption.
+Qed.
+
+End Machine.
+End Generic.
+
+(* ================================================================================================ *)
+(* 6. the B-tree interface instantiated with Proofs/BTreeMap.v + Proofs/BTreeInv.v                  *)
+(* ================================================================================================ *)
+(* shape invariant (all leaves at one depth, entry-count bounds, root non-empty) + sortedness *)
+Definition btR (m : nat) (cmp : cmpf) (r : option BT.node) : Prop :=
+  BTreeInv.btree_inv m r /\ BTreeInv.sorted_root cmp r.
+
+Lemma btR_empty : forall m cmp, btR m cmp None.
+Proof. intros m cmp. split; exact I. Qed.
+
+Lemma bt_fuel_hroot : forall m r, BTreeInv.btree_inv m r -> bt_fuel r = S (BTreeInv.hroot r).
+Proof.
+  intros m [n|] H; [|reflexivity]. cbn [bt_fuel BTreeInv.hroot].
+  rewrite (BTreeInv.btree_inv_height m n H). reflexivity.
+Qed.
+
+Lemma bt_inorder_eq : forall r, bt_inorder r = BTreeMap.inorder' r.
+Proof. intros [n|]; reflexivity. Qed.
+
+Lemma btR_put_total : forall m cmp, (3 <= m)%nat -> SWO cmp -> forall k v r, btR m cmp r ->
+  exists r' b, BT.put m cmp (bt_fuel r) (k, v) r = Some (r', b) /\ btR m cmp r' /\
+               bt_inorder r' = ins_list cmp k v (bt_inorder r) /\
+               b = negb (mem_list cmp k (bt_inorder r)).
+Proof.
+  intros m cmp Hm Hswo k v r [Hinv Hs].
+  destruct (BTreeInv.put_correct m cmp (k, v) r Hm Hswo Hinv Hs) as (r' & b & Hp & Hinv' & Hs' & Hin & Hb).
+  exists r', b. rewrite (bt_fuel_hroot m r Hinv), !bt_inorder_eq.
+  split; [exact Hp|]. split; [split; assumption|]. split; [exact Hin|exact Hb].
+Qed.
+
+Lemma btR_remove_total : forall m cmp, (3 <= m)%nat -> SWO cmp -> forall k r, btR m cmp r ->
+  exists r' b, BT.remove m cmp (bt_fuel r) k r = Some (r', b) /\ btR m cmp r' /\
+               bt_inorder r' = del_list cmp k (bt_inorder r) /\
+               b = mem_list cmp k (bt_inorder r).
+Proof.
+  intros m cmp Hm Hswo k r [Hinv Hs].
+  destruct (BTreeInv.remove_correct m cmp k r Hm Hswo Hinv Hs) as (r' & b & Hp & Hinv' & Hs' & Hin & Hb).
+  exists r', b. rewrite (bt_fuel_hroot m r Hinv), !bt_inorder_eq.
+  split; [exact Hp|]. split; [split; assumption|]. split; [exact Hin|exact Hb].
+Qed.
+
+Lemma btR_get_spec : forall m cmp, (3 <= m)%nat -> SWO cmp -> forall k r, btR m cmp r ->
+  bt_get cmp k r = find_list cmp k (bt_inorder r).
+Proof.
+  intros m cmp Hm Hswo k [n|] [Hinv Hs]; [|reflexivity].
+  cbn [bt_get bt_inorder bt_fuel].
+  apply (BTreeMap.get_spec cmp Hswo); [eapply BTreeInv.btree_inv_wf; exact Hinv | exact Hs | lia].
+Qed.
+
+Lemma btR_sorted : forall m cmp, (3 <= m)%nat -> SWO cmp -> forall r, btR m cmp r ->
+  ksorted cmp (bt_inorder r).
+Proof. intros m cmp Hm Hswo [n|] [_ Hs]; [exact Hs|constructor]. Qed.
+
+Lemma cnt_ne_entries : forall m, (3 <= m)%nat -> forall n lo, (1 <= lo)%nat ->
+  BTreeInv.cnt m lo n -> BTreeMap.ne_entries n.
+Proof.
+  intros m Hm n. induction n as [es cs IH] using BTreeInd.node_ind2. intros lo Hlo Hc.
+  apply BTreeInv.cnt_inv in Hc. destruct Hc as [Hlen Hf]. constructor.
+  - intros E. subst es. cbn [length] in Hlen. lia.
+  - rewrite Forall_forall in *. intros c Hc.
+    apply (IH c Hc (BT.minEntries m)); [apply BTreeInv.minE_pos; exact Hm | apply Hf; exact Hc].
+Qed.
+
+Lemma btR_left_right : forall m cmp, (3 <= m)%nat -> SWO cmp -> forall n, btR m cmp (Some n) ->
+  BT.left_entry n = hd_error (BT.inorder n) /\ BT.right_entry n = last_opt (BT.inorder n).
+Proof.
+  intros m cmp Hm Hswo n [Hinv _].
+  pose proof (BTreeInv.btree_inv_wf m n Hinv) as Hwf.
+  destruct Hinv as (h & _ & Hc).
+  pose proof (cnt_ne_entries m Hm n 1%nat (le_n 1) Hc) as Hne.
+  split; [apply BTreeMap.left_entry_spec | apply BTreeMap.right_entry_spec]; assumption.
+Qed.
+
+Lemma btR_root_nonempty : forall m cmp, (3 <= m)%nat -> SWO cmp -> forall n, btR m cmp (Some n) ->
+  BT.entries n <> [].
+Proof.
+  intros m cmp Hm Hswo [es cs] [(h & _ & Hc) _]. apply BTreeInv.cnt_inv in Hc.
+  destruct Hc as [Hlen _]. cbn [BT.entries]. intros E. subst es. cbn [length] in Hlen. lia.
+Qed.
+
+Ltac bt_hyp :=
+  first [ exact btR_empty | exact btR_put_total | exact btR_remove_total | exact btR_get_spec
+        | exact btR_sorted | exact btR_left_right | exact btR_root_nonempty ].
+
+(* ================================================================================================ *)
+(* 7. the final theorems (no hypothesis left)                                                       *)
+(* ================================================================================================ *)
+(* the machine invariant of the six kinds:
+     RedBlackTree / TreeMap : red-black invariant, search-tree order, cached size = number of nodes
+     AVLTree                : AVL balance invariant, search-tree order, cached size
+     BTree                  : B-tree shape invariant (order m), sortedness, cached size
+     HashMap                : canonical (strictly ascending) association list
+     LinkedHashMap          : canonical table; ordering list duplicate-free with the table's keys *)
+Definition minv : config -> state -> Prop := Generic.inv btR.
+Definition mabs : config -> state -> list entry := Generic.abs.
+
+Theorem run_sim : forall c ops, valid c ->
+  minv c (run c ops) /\ mabs c (run c ops) = mrun (cmp_for c) (hist c ops).
+Proof. intros c ops Hv. apply (Generic.run_sim btR); solve [bt_hyp | exact Hv]. Qed.
+
+Theorem step_preserves : forall c s o, valid c -> minv c s ->
+  minv c (fst (fst (step c s o))) /\
+  mabs c (fst (fst (step c s o))) = fold_left (mstep (cmp_for c)) (hist1 c o) (mabs c s).
+Proof. intros c s o Hv Hi. apply (Generic.step_sim btR); solve [bt_hyp | assumption]. Qed.
+
+Theorem run_not_crash : forall c ops, valid c -> run c ops <> StCrash.
+Proof. intros c ops Hv. apply (Generic.run_not_crash btR); solve [bt_hyp | exact Hv]. Qed.
+
+Theorem refines_tree : forall c ops, valid c -> ckind c <> LinkedHashMap ->
+  entries_of c (run c ops) = mrun (cmp_for c) (hist c ops).
+Proof. intros c ops Hv K. apply (Generic.refines_tree btR); solve [bt_hyp | assumption]. Qed.
+
+Theorem refines_linked : forall c ops, valid c -> ckind c = LinkedHashMap ->
+  Permutation (entries_of c (run c ops)) (mrun Z.compare (hist c ops)) /\
+  NoDup (keys_of c (run c ops)).
+Proof. intros c ops Hv K. apply (Generic.refines_linked btR); solve [bt_hyp | assumption]. Qed.
+
+Theorem refines_perm : forall c ops, valid c ->
+  Permutation (entries_of c (run c ops)) (mrun (cmp_for c) (hist c ops)).
+Proof. intros c ops Hv. apply (Generic.refines_perm btR); solve [bt_hyp | assumption]. Qed.
+
+Theorem C01_get : forall c ops k, valid c ->
+  get_of c (run c ops) k = oopt (option_map snd (last_live (cmp_for c) (rev (hist c ops)) k)).
+Proof. intros c ops k Hv. apply (Generic.C01_get btR); solve [bt_hyp | assumption]. Qed.
+
+Theorem C01_size : forall c ops, valid c ->
+  size_of c (run c ops) = Z.of_nat (length (mrun (cmp_for c) (hist c ops))).
+Proof. intros c ops Hv. apply (Generic.C01_size btR); solve [bt_hyp | assumption]. Qed.
+
+Theorem C01_keys_values : forall c ops, valid c -> ckind c <> LinkedHashMap ->
+  keys_of c (run c ops) = map fst (mrun (cmp_for c) (hist c ops)) /\
+  values_of c (run c ops) = map snd (mrun (cmp_for c) (hist c ops)).
+Proof. intros c ops Hv K. apply (Generic.C01_keys_values btR); solve [bt_hyp | assumption]. Qed.
+
+Theorem C01_entry_iff : forall c ops e, valid c ->
+  In e (entries_of c (run c ops)) <-> last_live (cmp_for c) (rev (hist c ops)) (fst e) = Some e.
+Proof. intros c ops e Hv. apply (Generic.C01_entry_iff btR); solve [bt_hyp | assumption]. Qed.
+
+Theorem C01_aligned : forall c ops, valid c ->
+  keys_of c (run c ops) = map fst (entries_of c (run c ops)) /\
+  values_of c (run c ops) = map snd (entries_of c (run c ops)) /\
+  values_of c (run c ops) =
+    map (fun k => match last_live (cmp_for c) (rev (hist c ops)) k with Some e => snd e | None => 0 end)
+        (keys_of c (run c ops)).
+Proof. intros c ops Hv. apply (Generic.C01_aligned btR); solve [bt_hyp | assumption]. Qed.
+
+Theorem C01_nodup : forall c ops, valid c ->
+  NoDupA (fun a b => cmp_for c a b = Eq) (keys_of c (run c ops)).
+Proof. intros c ops Hv. apply (Generic.C01_nodup btR); solve [bt_hyp | assumption]. Qed.
+
+Theorem C01_linked : forall c ops, valid c -> ckind c = LinkedHashMap ->
+  Permutation (entries_of c (run c ops)) (mrun Z.compare (hist c ops)) /\
+  Permutation (keys_of c (run c ops)) (map fst (mrun Z.compare (hist c ops))) /\
+  Permutation (values_of c (run c ops)) (map snd (mrun Z.compare (hist c ops))) /\
+  NoDup (keys_of c (run c ops)).
+Proof. intros c ops Hv K. apply (Generic.C01_linked btR); solve [bt_hyp | assumption]. Qed.
+
+Theorem C01_remove_absent : forall c ops k, valid c ->
+  get_of c (run c ops) k = OL [] ->
+  fst (fst (step c (run c ops) (Remove k))) = run c ops.
+Proof. intros c ops k Hv Hg. apply (Generic.C01_remove_absent btR); solve [bt_hyp | assumption]. Qed.
+
+Theorem C02_sorted : forall c ops, valid c -> ordered_kind (ckind c) = true ->
+  ksorted (kc c) (entries_of c (run c ops)).
+Proof. intros c ops Hv Ho. apply (Generic.C02_sorted btR); solve [bt_hyp | assumption]. Qed.
+
+Theorem C02_keys_sorted : forall c ops, valid c -> ordered_kind (ckind c) = true ->
+  StronglySorted (fun a b => kc c a b = Lt) (keys_of c (run c ops)).
+Proof. intros c ops Hv Ho. apply (Generic.C02_keys_sorted btR); solve [bt_hyp | assumption]. Qed.
+
+Theorem C02_one_key : forall c ops, valid c -> ordered_kind (ckind c) = true ->
+  NoDupA (fun a b => kc c a b = Eq) (keys_of c (run c ops)).
+Proof. intros c ops Hv Ho. apply (Generic.C02_one_key btR); solve [bt_hyp | assumption]. Qed.
+
+Theorem C02_left : forall c ops, valid c -> ordered_kind (ckind c) = true ->
+  left_of (run c ops) = hd_error (entries_of c (run c ops)).
+Proof. intros c ops Hv Ho. apply (Generic.C02_left btR); solve [bt_hyp | assumption]. Qed.
+
+Theorem C02_right : forall c ops, valid c -> ordered_kind (ckind c) = true ->
+  right_of (run c ops) = last_opt (entries_of c (run c ops)).
+Proof. intros c ops Hv Ho. apply (Generic.C02_right btR); solve [bt_hyp | assumption]. Qed.
+
+Theorem C02_left_least : forall c ops, valid c -> ordered_kind (ckind c) = true ->
+  match left_of (run c ops) with
+  | Some e => In e (entries_of c (run c ops)) /\
+              forall e', In e' (entries_of c (run c ops)) -> e' = e \/ kc c (fst e) (fst e') = Lt
+  | None => entries_of c (run c ops) = []
+  end.
+Proof. intros c ops Hv Ho. apply (Generic.C02_left_least btR); solve [bt_hyp | assumption]. Qed.
+
+Theorem C02_right_greatest : forall c ops, valid c -> ordered_kind (ckind c) = true ->
+  match right_of (run c ops) with
+  | Some e => In e (entries_of c (run c ops)) /\
+              forall e', In e' (entries_of c (run c ops)) -> e' = e \/ kc c (fst e') (fst e) = Lt
+  | None => entries_of c (run c ops) = []
+  end.
+Proof. intros c ops Hv Ho. apply (Generic.C02_right_greatest btR); solve [bt_hyp | assumption]. Qed.
+
+Theorem C02_floor : forall c ops p, valid c -> ordered_kind (ckind c) = true -> ckind c <> BTree ->
+  floor_of c (run c ops) p = floor_list (kc c) p (entries_of c (run c ops)).
+Proof. intros c ops p Hv Ho Hb. apply (Generic.C02_floor btR); solve [bt_hyp | assumption]. Qed.
+
+Theorem C02_ceiling : forall c ops p, valid c -> ordered_kind (ckind c) = true -> ckind c <> BTree ->
+  ceiling_of c (run c ops) p = ceiling_list (kc c) p (entries_of c (run c ops)).
+Proof. intros c ops p Hv Ho Hb. apply (Generic.C02_ceiling btR); solve [bt_hyp | assumption]. Qed.
+
+Theorem C02_floor_char : forall c ops p, valid c -> ordered_kind (ckind c) = true -> ckind c <> BTree ->
+  match floor_of c (run c ops) p with
+  | Some e => In e (entries_of c (run c ops)) /\ kc c p (fst e) <> Lt /\
+              (forall e', In e' (entries_of c (run c ops)) -> kc c p (fst e') <> Lt ->
+                          e' = e \/ kc c (fst e') (fst e) = Lt) /\
+              (forall e', In e' (entries_of c (run c ops)) -> kc c (fst e) (fst e') = Lt ->
+                          kc c p (fst e') = Lt)
+  | None => forall e', In e' (entries_of c (run c ops)) -> kc c p (fst e') = Lt
+  end.
+Proof. intros c ops p Hv Ho Hb. apply (Generic.C02_floor_char btR); solve [bt_hyp | assumption]. Qed.
+
+Theorem C02_ceiling_char : forall c ops p, valid c -> ordered_kind (ckind c) = true -> ckind c <> BTree ->
+  match ceiling_of c (run c ops) p with
+  | Some e => In e (entries_of c (run c ops)) /\ kc c p (fst e) <> Gt /\
+              (forall e', In e' (entries_of c (run c ops)) -> kc c p (fst e') <> Gt ->
+                          e' = e \/ kc c (fst e) (fst e') = Lt) /\
+              (forall e', In e' (entries_of c (run c ops)) -> kc c (fst e') (fst e) = Lt ->
+                          kc c p (fst e') = Gt)
+  | None => forall e', In e' (entries_of c (run c ops)) -> kc c p (fst e') = Gt
+  end.
+Proof. intros c ops p Hv Ho Hb. apply (Generic.C02_ceiling_char btR); solve [bt_hyp | assumption]. Qed.
+
+Theorem C02_observed : forall c ops, valid c -> ordered_kind (ckind c) = true ->
+  In (TLeft, oopt2 (left_of (run c ops))) (observe c 1 (run c ops)) /\
+  In (TRight, oopt2 (right_of (run c ops))) (observe c 1 (run c ops)) /\
+  (ckind c <> BTree ->
+   In (TFloor, OL (map (fun p => oopt2 (floor_of c (run c ops) p)) (probes c))) (observe c 1 (run c ops)) /\
+   In (TCeiling, OL (map (fun p => oopt2 (ceiling_of c (run c ops) p)) (probes c))) (observe c 1 (run c ops))).
+Proof. intros c ops Hv Ho. apply (Generic.C02_observed btR); solve [bt_hyp | assumption]. Qed.
+
+(* ================================================================================================ *)
+(* 8. TreeSet (C02): the members are the keys of a red-black tree; Add / Remove are sequences of    *)
+(*    tree puts / removes                                                                           *)
+(* ================================================================================================ *)
+Definition set_hist1 (o : op) : list mop :=
+  match o with
+  | Add vs => puts (map (fun x => (x, 0)) vs)
+  | RemoveVals vs => map MRemove vs
+  | Clear => [MClear]
+  | FromJSON (DArr vs) => MClear :: puts (map (fun x => (x, 0)) vs)
+  | FromJSON DNull => [MClear]
+  | _ => []
+  end.
+Definition set_hist (ops : list op) : list mop := flat_map set_hist1 ops.
+
+Definition tsinv (c : config) (s : state) : Prop :=
+  match s with StRB t n => rbI (kc c) (t, n) | _ => False end.
+
+Lemma ts_add_values : forall c vs s, tsinv c s ->
+  tsinv c (add_values c vs s) /\
+  entries_of c (add_values c vs s) =
+  fold_left (mstep (kc c)) (puts (map (fun x => (x, 0)) vs)) (entries_of c s).
+Proof.
+  intros c vs s Hi. destruct s; try contradiction. cbn [add_values tsinv] in *.
+  destruct (rbs_puts_sim (kc c) (kc_SWO c) (map (fun x => (x, 0)) vs) (t, n) Hi) as ([t' n'] & E & H' & I').
+  rewrite E. split; [exact H'|exact I'].
+Qed.
+
+Lemma ts_step_sim : forall c s o, ckind c = TreeSet -> tsinv c s ->
+  tsinv c (fst (fst (step c s o))) /\
+  entries_of c (fst (fst (step c s o))) = fold_left (mstep (kc c)) (set_hist1 o) (entries_of c s).
+Proof.
+  intros c s o K Hi.
+  assert (Hinit : init c = StRB RB.E 0) by (unfold init; rewrite K; reflexivity).
+  assert (Hi0 : tsinv c (init c)) by (rewrite Hinit; apply rbI_empty).
+  assert (Hkv : is_kv (ckind c) = false) by (rewrite K; reflexivity).
+  destruct s; try contradiction.
+  destruct o; unfold step; rewrite ?K; cbn [set_hist1 fold_left mstep fst];
+    try (split; [exact Hi|reflexivity]).
+  - (* Add *) apply ts_add_values. exact Hi.
+  - (* RemoveVals *)
+    destruct (rbs_removes_sim (kc c) (kc_SWO c) vs (t, n) Hi) as ([t' n'] & E & H' & I').
+    rewrite E. cbn [fst]. split; [exact H'|exact I'].
+  - (* Clear *) rewrite Hinit. split; [apply rbI_empty|reflexivity].
+  - (* FromJSON *)
+    unfold from_json. rewrite Hkv. unfold load_array. rewrite K.
+    destruct d as [| |vs|kvs]; cbn [fst set_hist1 fold_left mstep].
+    + split; [exact Hi|reflexivity].
+    + cbn [add_values]. rewrite Hinit. cbn [rbs_puts map]. split; [apply rbI_empty|reflexivity].
+    + destruct (ts_add_values c vs (init c) Hi0) as [H' I']. split; [exact H'|].
+      rewrite I', Hinit. reflexivity.
+    + split; [exact Hi|reflexivity].
+  - (* enumerable functions *) cbn [has_enumerable negb]. destruct (each_of _ _); split; (exact Hi || reflexivity).
+  - cbn [has_enumerable negb]. destruct (each_of _ _); split; (exact Hi || reflexivity).
+  - cbn [has_enumerable negb]. destruct (each_of _ _); split; (exact Hi || reflexivity).
+  - cbn [has_enumerable negb]. destruct (each_of _ _); split; (exact Hi || reflexivity).
+  - cbn [has_enumerable negb]. destruct (each_of _ _); split; (exact Hi || reflexivity).
+  - cbn [has_enumerable negb]. destruct (each_of _ _); split; (exact Hi || reflexivity).
+Qed.
+
+Theorem treeset_refines : forall c ops, ckind c = TreeSet ->
+  tsinv c (run c ops) /\ entries_of c (run c ops) = mrun (kc c) (set_hist ops).
+Proof.
+  intros c ops K.
+  assert (Hinit : init c = StRB RB.E 0) by (unfold init; rewrite K; reflexivity).
+  assert (G : forall ops s, tsinv c s ->
+            tsinv c (run_from c s ops) /\
+  entries_of c (run_from c s ops) = fold_left (mstep (kc c)) (set_hist ops) (entries_of c s)).
+  { clear ops. induction ops as [|o ops IH]; intros s Hi; [split; [exact Hi|reflexivity]|].
+    unfold run_from, set_hist. cbn [fold_left flat_map]. rewrite fold_left_app.
+    destruct (ts_step_sim c s o K Hi) as [H1 E1].
+    destruct (IH _ H1) as [H2 E2]. unfold run_from, set_hist in H2, E2.
+    split; [exact H2|]. rewrite E2, E1. reflexivity. }
+  unfold run. destruct (G ops (init c)) as [H E]; [rewrite Hinit; apply rbI_empty|].
+  split; [exact H|]. rewrite E, Hinit. reflexivity.
+Qed.
+
+(* Values() of a TreeSet: the members in strictly ascending comparator order, one per key class *)
+Theorem C02_treeset : forall c ops, ckind c = TreeSet ->
+  run c ops <> StCrash /\
+  values_of c (run c ops) = map fst (mrun (kc c) (set_hist ops)) /\
+  StronglySorted (fun a b => kc c a b = Lt) (values_of c (run c ops)) /\
+  NoDupA (fun a b => kc c a b = Eq) (values_of c (run c ops)) /\
+  size_of c (run c ops) = Z.of_nat (length (values_of c (run c ops))) /\
+  (forall x, In x (values_of c (run c ops)) <->
+             last_live (kc c) (rev (set_hist ops)) x = Some (x, 0)).
+Proof.
+  intros c ops K. destruct (treeset_refines c ops K) as [Hi E].
+  pose proof (mrun_sorted (kc c) (kc_SWO c) (set_hist ops)) as Hs.
+  destruct (run c ops) as [| | |t n| | | | | | | | |] eqn:R; try contradiction.
+  cbn [values_of entries_of size_of] in *. rewrite K. unfold RB.keys. rewrite E.
+  split; [discriminate|]. split; [reflexivity|]. split; [apply Generic.ksorted_keys; exact Hs|].
+  split; [apply ksorted_keys_nodupA; exact Hs|].
+  split; [destruct Hi as (_ & _ & Hn); cbn [fst snd] in Hn; rewrite Hn, E, map_length; reflexivity|].
+  intros x. split.
+  - intros Hin. apply in_map_iff in Hin. destruct Hin as (e & <- & He).
+    pose proof He as He'. apply (mrun_In_last_live (kc c) (kc_SWO c)) in He'. rewrite He'. f_equal.
+    (* every stored value of a set is 0 *)
+    assert (Hz : forall h l, (forall e0, In e0 l -> snd e0 = 0) ->
+                 (forall o, In o h -> match o with MPut _ v => v = 0 | _ => True end) ->
+                 forall e0, In e0 (fold_left (mstep (kc c)) h l) -> snd e0 = 0).
+    { induction h as [|o h IHh]; intros l Hl Hh e0 He0; [apply Hl; exact He0|].
+      cbn [fold_left] in He0. apply (IHh (mstep (kc c) l o)); [| |exact He0].
+      - intros e1 He1. destruct o as [k1 v1|k1|]; cbn [mstep] in He1.
+        + apply ins_list_In in He1. destruct He1 as [->|He1]; [|apply Hl; exact He1].
+          cbn [snd]. exact (Hh (MPut k1 v1) (or_introl eq_refl)).
+        + apply del_list_In in He1. apply Hl. exact He1.
+        + destruct He1.
+      - intros o' Ho'. apply Hh. right. exact Ho'. }
+    destruct e as [k0 v0]. cbn [fst]. f_equal.
+    apply (Hz (set_hist ops) [] (fun e0 (H0 : In e0 []) => match H0 with end)); [|exact He].
+    intros o Ho. unfold set_hist in Ho. apply in_flat_map in Ho. destruct Ho as (op0 & _ & Ho).
+    destruct op0; cbn [set_hist1] in Ho; try contradiction.
+    + unfold puts in Ho. rewrite map_map in Ho. apply in_map_iff in Ho. destruct Ho as (y & <- & _). reflexivity.
+    + apply in_map_iff in Ho. destruct Ho as (y & <- & _). exact I.
+    + destruct Ho as [<-|[]]. exact I.
+    + destruct d; cbn in Ho; try contradiction.
+      * destruct Ho as [<-|[]]. exact I.
+      * destruct Ho as [<-|Ho]; [exact I|]. unfold puts in Ho. rewrite map_map in Ho.
+        apply in_map_iff in Ho. destruct Ho as (y & <- & _). reflexivity.
+  - intros H. apply (mrun_In_last_live (kc c) (kc_SWO c) (set_hist ops) (x, 0)) in H.
+    apply (in_map fst) in H. exact H.
+Qed.
+
+Print Assumptions run_sim.
+Print Assumptions C02_treeset.
+Print Assumptions refines_tree.
+Print Assumptions refines_linked.
+Print Assumptions C01_get.
+Print Assumptions C01_size.
+Print Assumptions C01_keys_values.
+Print Assumptions C01_entry_iff.
+Print Assumptions C01_aligned.
+Print Assumptions C01_nodup.
+Print Assumptions C01_linked.
+Print Assumptions C01_remove_absent.
+Print Assumptions C02_sorted.
+Print Assumptions C02_left_least.
+Print Assumptions C02_right_greatest.
+Print Assumptions C02_floor_char.
+Print Assumptions C02_ceiling_char.
+Print Assumptions C02_observed.
